@@ -450,6 +450,40 @@ def _case(rng: Rng, tier, entry=None, force=None):
         case["many"] = N
     if method == "LP" and not entry.startswith(("PSplines", "LocalPolynomial")) and not two_d and not gap and not case.get("bigq") and dom in ("unit", "end0") and rng.random() < 0.5:
         case["default_bw"] = True  # the entry point's own default bandwidth (a function of the DATA, not of the query set)
+    # a request that LOOKS like the sampling grid — as many points in every dimension, the same first and last points — but
+    # has other interior points (squared grid, jittered interior, interior permuted); sub-requests: single points, halves,
+    # the sampling grid itself
+    if force.get("samegrid") and "x" in case and not case.get("int_axis0"):
+        kind_sg = force["samegrid"]
+
+        def like_grid(key, dname):
+            xs = [F(t) for t in case[key]]
+            lo_, hi_ = xs[0], xs[-1]
+            inner = xs[1:-1]
+            if kind_sg == "squared":
+                new = [lo_ + (hi_ - lo_) * ((t - lo_) / (hi_ - lo_)) ** 2 for t in inner]
+            elif kind_sg == "jittered":
+                new = [t + (xs[i + 2] - t) * Fraction(1, 8) for i, t in enumerate(inner)]
+            else:  # the same points, the interior in another order
+                new = inner[1:] + inner[:1] if len(inner) > 1 else inner
+                new = new[::-1] if new == inner else new
+            return [rs(lo_)] + [rs(t) for t in new] + [rs(hi_)]
+
+        case["samegrid"] = kind_sg
+        Q1 = like_grid("x", dom)
+        half = len(Q1) // 2
+        if two_d:
+            Q2 = like_grid("x2", case["dom2"])
+            h2 = len(Q2) // 2
+            case["Q"], case["Q2"] = Q1, Q2
+            case["variants"] = [["sampling_grid", case["x"], case["x2"]], ["first_halves", Q1[:half + 1], Q2[:h2 + 1]], ["single_interior", [Q1[1]], [Q2[1]]],
+                                ["rows_only_like_grid", Q1, case["x2"]], ["one_row", [Q1[half]], Q2], ["second_halves", Q1[half:], Q2[h2:]]]
+        else:
+            case["Q"] = Q1
+            case["variants"] = [["sampling_grid", case["x"]], ["first_half", Q1[:half + 1]], ["second_half", Q1[half:]], ["single_interior", [Q1[1]]],
+                                ["single_interior2", [Q1[-2]]], ["interior_only", Q1[1:-1]], ["sorted", sorted(Q1, key=F)]]
+        for k_ in ("near", "many", "outside", "bigq"):
+            case.pop(k_, None)
     return case
 
 
@@ -471,6 +505,11 @@ def gen_cases(rng: Rng, tier):
                 continue
             yield _case(rng, tier, entry, dict(method=method, dom=["unit", "doy", "end0", "neg"][j % 4], nonconst=True, outside=True, side=["both", "left", "right"][j % 3]))
             k += 1
+    for kind_sg, entry in (("squared", "PSplines.predict"), ("jittered", "PSplines.predict"), ("permuted", "PSplines.predict"), ("squared", "PSplines.predict2d"),
+                           ("permuted", "PSplines.predict2d"), ("squared", "DenseFunctionalData.smooth"), ("permuted", "DenseFunctionalData.mean"),
+                           ("jittered", "DenseFunctionalData.smooth2d")):
+        yield _case(rng, tier, entry, dict(method="PS", dom=rng.choice(["unit", "doy", "end0"]), nonconst=True, samegrid=kind_sg))
+        k += 1
     for pn, method in ((1500, "LP"), (2000, "LP"), (2001, "LP"), (2500, "LP"), (1500, "PS")) + (((1999, "LP"), (2001, "PS"), (1999, "PS")) if tier == "thorough" else ()):
         yield _case(rng, tier, "IrregularFunctionalData.mean", dict(method=method, dom=rng.choice(["unit", "doy"]), nonconst=True, pooled_n=pn))
         k += 1
@@ -1197,6 +1236,8 @@ def classify(case, impl):
         tags.append("pooled>2000")
     if case.get("near"):
         tags.append("near-coincident-queries")
+    if case.get("samegrid"):
+        tags.append("request-looks-like-sampling-grid:" + case["samegrid"])
     if case.get("pooled_n"):
         tags.append(f"pooled-size:{case['pooled_n']}")
     if case.get("bigq") or case.get("many"):
